@@ -171,15 +171,15 @@ func registerVrt(e *engine) {
 		m := fr.m
 		name := argStr(fr, a[0])
 		lo, hi := asInt64(a[1]), asInt64(a[2])
+		if lo == hi {
+			return lo
+		}
 		if m.concrete != nil {
 			v := m.feedVar(name)
 			if v == nil {
 				return lo
 			}
 			return v.Int64()
-		}
-		if lo == hi {
-			return lo
 		}
 		return m.newIntVar(name, big.NewInt(lo), big.NewInt(hi), "int")
 	})
